@@ -205,12 +205,24 @@ def rule_disp(c, prog):
         c.violation(R, "skip|order", f"decode_prop_chunk touches instances before deciding whether the chunk is skipped ({order[:4]})", fn.sp, instance="skip-before-mutation")
     # INST: object_format is read and not rejected
     fi = common.find_fn(prog, DS + "decode_inst_chunk$")
+    # the object-format byte: the single byte read between the class name (read_string) and the instance count
+    # (read_le_u32); whatever the local is called, no branch on it may leave the function
+    seq_reads = [n for n in core.walk_fn(fi, into_closures=False) if n.get("k") == "MethodCall" and n["m"] in ("read_string", "read_u8", "read_bool", "read_le_u32")]
+    names = [n["m"] for n in seq_reads]
     of = None
-    for st in core.walk_lets(fi.body):
-        if st["pat"].get("name") == "object_format":
-            of = st["pat"]["lid"]
+    read_node = None
+    if "read_string" in names:
+        i0 = names.index("read_string")
+        rest = seq_reads[i0 + 1:]
+        if rest and rest[0]["m"] in ("read_u8", "read_bool"):
+            read_node = rest[0]
+    if read_node is not None:
+        of = "unbound"
+        for st in core.walk_lets(fi.body):
+            if "init" in st and any(x is read_node for x in core.walk(st["init"])) and st["pat"].get("k") == "Binding":
+                of = st["pat"]["lid"]
     rejects = False
-    if of is not None:
+    if of not in (None, "unbound"):
         for n in core.walk_fn(fi):
             if n.get("k") == "If" and any(x.get("lid") == of for x in core.walk(n["c"])) and any(x.get("k") == "Ret" for x in core.walk(n["t"])):
                 rejects = True
@@ -235,11 +247,12 @@ def rule_ids(c, prog):
     fn = common.find_fn(prog, DS + "decode_prop_chunk$")
     # type_id lookup is a checked map get with an error
     ok = False
-    for st in core.walk_lets(fn.body):
-        if st["pat"].get("name") == "type_info" and "init" in st:
-            fp = core.fingerprint(st["init"], 6)
-            if "type_infos.get(" in fp and "ok_or" in fp:
-                ok = True
+    # every lookup in the class table is a checked `get` whose miss is an error (ok_or / ok_or_else / `?` / match),
+    # never an index or an unwrap
+    gets = [n for n in core.walk_fn(fn) if n.get("k") == "MethodCall" and n["m"] in ("get", "get_mut") and core.place_root(n["recv"])[1][-1:] == ["type_infos"]]
+    idx = [n for n in core.walk_fn(fn) if n.get("k") == "Index" and core.place_root(n["l"])[1][-1:] == ["type_infos"]]
+    unwrapped = [n for n in core.walk_fn(fn) if n.get("k") == "MethodCall" and n["m"] in ("unwrap", "expect") and any(core.strip(n["recv"]) is g for g in gets)]
+    ok = bool(gets) and not idx and not unwrapped
     if ok:
         c.ok(R, "class-id:checked-lookup")
     else:
